@@ -29,9 +29,9 @@ import time
 from ..core import Run, pmap, chunked, ToolError
 from ..cohdl_util import compile_source
 from ..gen.c20_layouts import LAYOUTS
-from ..gen import c20_trees
+from ..gen import c20_trees, c20_objects
 from ..mc.explorer import bfs
-from ..ref.c20_model import Monitor, RegModel, Violation, STALL_LIMIT
+from ..ref.c20_model import Monitor, RegModel, Violation, STALL_LIMIT, UNOBSERVED
 from ..vhdl.elab import compile_design
 from ..vhdl import rt
 from ..vhdl.parser import Unsupported, VhdlSyntaxError
@@ -107,7 +107,7 @@ class AxiSystem:
         self.hw_menu = [dict(zip(hw_ports, combo)) for combo in itertools.product(*[hw_vals[n] for n in hw_ports])]
         self.hw_vec = {n: p[n][1][0] == "vec" for n in hw_ports}
         self.trap_addr = layout["regs"][0]["addr"]
-        self.reg_sids = [(sid(n), p[n][1][0] == "vec") for n in self.model.ports]
+        self.reg_sids = [(sid(n), p[n][1][0] == "vec") if n is not None else (None, False) for n in self.model.ports]
         self.note_sids = [sid(port) for _, _, port in self.model.notes]
         self.ready_free = [(b, r) for b in (0, 1) for r in (0, 1)]
         # initial inputs
@@ -138,7 +138,7 @@ class AxiSystem:
     def observe(self):
         S = self.sim.S
         s = self.s
-        return (S[s["axi_bvalid"]], S[s["axi_rvalid"]], S[s["axi_rdata"]]) + tuple(S[x] for x, _ in self.reg_sids)
+        return (S[s["axi_bvalid"]], S[s["axi_rvalid"]], S[s["axi_rdata"]]) + tuple(S[x] for x, _ in self.reg_sids if x is not None)
 
     def _pairs_ok(self, aw, w):
         """would starting AW=aw (addr|None) and W=w ((data,strb)|None) now form an excluded (addr, strb) pair?"""
@@ -252,6 +252,9 @@ class AxiSystem:
         post = self._sample()
         regs = []
         for x, isvec in self.reg_sids:
+            if x is None:
+                regs.append(UNOBSERVED)
+                continue
             v = S[x]
             if isvec:
                 regs.append(None if v[1] else v[0])
@@ -280,8 +283,11 @@ class AxiSystem:
 def make_system(cfg):
     """build the system; compiler-generated variables that are live across activations are found dynamically
     (vsim poison mode reports a read-before-write in an activation) and kept in the snapshots"""
-    if cfg.get("tree") and cfg["layout"] not in LAYOUTS:
-        LAYOUTS[cfg["layout"]] = c20_trees.build(cfg["tree"])
+    if cfg["layout"] not in LAYOUTS:
+        if cfg["layout"].startswith("tree/"):
+            LAYOUTS[cfg["layout"]] = c20_trees.build(cfg["layout"][5:])
+        elif cfg["layout"].startswith("obj/"):
+            LAYOUTS[cfg["layout"]] = c20_objects.build(cfg["layout"][4:])
     return AxiSystem(cfg, keep=cfg.get("keep", ()))
 
 
@@ -293,16 +299,48 @@ def sweep_data(a):
 
 
 def tree_cfg(code, keep=()):
-    return {"name": "tree/" + code, "layout": "tree/" + code, "tree": code, "addrs": [], "wpay": [], "maxo": 1, "hw": None,
+    """cfg of a generated layout: code = "tree/<chain>" | "obj/<object options>" (plain chain codes mean trees)"""
+    name = code if code.startswith(("tree/", "obj/")) else "tree/" + code
+    return {"name": name, "layout": name, "tree": name, "addrs": [], "wpay": [], "maxo": 1, "hw": None,
             "max_states": 0, "keep": sorted(keep)}
 
 
 def sweep_ops(layout):
-    """every word address of the window is written once with its own data word (ascending), then every address is read,
-    then written again in descending order with the complemented data and read again"""
+    if layout.get("sweep") == "options":
+        return option_sweep_ops(layout)
+    # decode sweep: every word address of the window is written once with its own data word (ascending), then every
+    # address is read, then written again in descending order with the complemented data and read again
     win = layout["window"]
-    ops = [("w", a, sweep_data(a)) for a in win] + [("r", a, None) for a in win]
-    ops += [("w", a, sweep_data(a) ^ 0xFFFFFFFF) for a in reversed(win)] + [("r", a, None) for a in reversed(win)]
+    ops = [("w", a, sweep_data(a), S1111) for a in win] + [("r", a) for a in win]
+    ops += [("w", a, sweep_data(a) ^ 0xFFFFFFFF, S1111) for a in reversed(win)] + [("r", a) for a in reversed(win)]
+    return ops
+
+
+def option_sweep_ops(layout):
+    """object-option sweep: read the whole window under both hardware-side valuations (defaults, hw-driven values);
+    then for every word of the object, the sentinel and one unmapped address and for EVERY write strobe s:
+    background write (other data word, strobes 1111), write (data word, s), read back every mapped word;
+    memories with allow_unaligned additionally: dword writes/reads at every unaligned byte address inside the memory"""
+    win = layout["window"]
+    mapped = [r["addr"] + 4 * w for r in layout["regs"] for w in range(r.get("words", 1))]
+    nhw = 1
+    for _, _, vals in layout["hw"]:
+        nhw *= len(vals)
+    ops = [("h", 0)] + [("r", a) for a in win]
+    if nhw > 1:
+        ops += [("h", nhw - 1)] + [("r", a) for a in win] + [("h", 0)]
+    targets = mapped + [layout["unmapped"][0]]
+    k = 0
+    for a in targets:
+        for s in range(16):
+            d, bg = (DATA_A, DATA_B) if k % 2 == 0 else (DATA_B, DATA_A)
+            k += 1
+            ops += [("w", a, bg, S1111), ("w", a, d, s)] + [("r", x) for x in mapped]
+        if nhw > 1:
+            ops += [("h", nhw - 1), ("r", a), ("h", 0)]
+    for a in layout.get("unaligned", ()):
+        d = DATA_A if (a & 4) else DATA_B
+        ops += [("w", a, d, S1111), ("r", a)] + [("r", x) for x in mapped]
     return ops
 
 
@@ -310,9 +348,13 @@ def run_sweep(system, ops, trace):
     """sequential master: AW and W offered together, bready/rready high; one transaction at a time.
     The monitor checks every clock (all register outputs, read data, protocol).  Raises Violation."""
     mon = system.mon
-    idle = (None, None, None, 1, 1, 0)
-    for kind, a, d in ops:
-        ch = (a, (d, S1111), None, 1, 1, 0) if kind == "w" else (None, None, a, 1, 1, 0)
+    h = 0
+    for op in ops:
+        if op[0] == "h":
+            h = op[1]
+            continue
+        idle = (None, None, None, 1, 1, h)
+        ch = (op[1], (op[2], op[3]), None, 1, 1, h) if op[0] == "w" else (None, None, op[1], 1, 1, h)
         trace.append(ch)
         system.step(ch)
         n = 0
@@ -322,9 +364,10 @@ def run_sweep(system, ops, trace):
             system.step(idle)
             n += 1
             if n > 4 * STALL_LIMIT:
-                raise Violation("sweep-stall", "", f"transaction {kind}@0x{a:x} not completed after {n} clocks")
-        trace.append(idle)
-        system.step(idle)
+                raise Violation("sweep-stall", "", f"transaction {op[0]}@0x{op[1]:x} not completed after {n} clocks")
+        for _ in range(system.layout.get("settle_clocks", 1)):
+            trace.append(idle)
+            system.step(idle)
 
 
 def sweep_trees(codes):
@@ -506,7 +549,6 @@ def quick_variants():
         V("nested/q2", "nested", [0x0, 0x8, 0x4], [(A, F), (B, M)], 1, HW_Y_FIXED),
         # L5 three-word AddrRange window at 0x0 (range-compare decode) directly followed by MemWord 0xC
         V("range/q1", "range", [0x0, 0x8, 0xC], [(A, F), (B, L)], 1),
-        V("range/q2", "range", [0x8, 0xC], [(A, F), (B, M)], 1),
         # L7 Interconnect in front of a register-map slave at 0x10 (the slave drops awready / wready separately)
         V("icon/q1", "icon", [0x10, 0x14], [(A, F), (B, L)], 1),
         # L8 the same RegFile class (notifying Register + MemWord) placed twice, per-instance notification outputs
@@ -547,6 +589,7 @@ def thorough_variants():
         V("fields/t5", "fields", [0x0, 0x8], [(A, F), (B, F)], 2, HW_FIXED, max_states=big),
         V("fields/t6", "fields", [0x0, 0x8, 0x4], [(A, F), (B, L), (A, M), (B, Z)], 1, HW_IN_ONLY, max_states=big),
         V("range/t1", "range", [0x8, 0xC], [(A, F), (B, M)], 2, max_states=big),
+        V("range/t3", "range", [0x8, 0xC], [(A, F), (B, M)], 1, max_states=big),
         V("range/t2", "range", [0x0, 0x4, 0x8, 0xC], [(A, F), (B, L), (B, M)], 1, max_states=big),
         # L6 MemWord 0x0, two-word Memory at 0x4 (offset not a multiple of its size), MemWord 0xC
         V("memory/t1", "memory", [0x8, 0xC], [(A, F), (B, M)], 2, max_states=big),
@@ -581,16 +624,16 @@ def finding_key(layout, f):
 def main(run: Run):
     if run.thorough:
         vs = thorough_variants()
-        codes = c20_trees.thorough_codes()
+        codes = ["tree/" + c for c in c20_trees.thorough_codes()] + ["obj/" + c for c in c20_objects.codes_thorough()]
     else:
         vs = quick_variants()
         pool = seed_pool()
         vs.append(pool[run.seed % len(pool)])
-        codes = c20_trees.quick_codes()
+        codes = ["tree/" + c for c in c20_trees.quick_codes()] + ["obj/" + c for c in c20_objects.codes_quick()]
     only = getattr(run, "only", None)
     if only:
         vs = [v for v in vs if v["name"] in only or v["layout"] in only]
-        codes = codes if "trees" in only else [c for c in codes if ("tree/" + c) in only]
+        codes = [c for c in codes if c in only or ("trees" in only and c.startswith("tree/")) or ("objects" in only and c.startswith("obj/"))]
 
     # largest first: better packing on the pool
     def size_hint(v):
@@ -607,6 +650,7 @@ def main(run: Run):
     all_events = set()
     layouts_seen = set()
     tree_sampled = 0
+    obj_sampled = 0
     for kind, res in pmap(work, tasks, seed=run.seed):
         if kind != "ok":
             run.tool_error(f"worker failed: {res[-1500:]}")
@@ -616,7 +660,7 @@ def main(run: Run):
             for t in r:
                 if t.get("rejected"):
                     run.count("trees_rejected")
-                    run.note(f"tree {t['code']} rejected by the compiler: {t['rejected'][-160:]}")
+                    run.note(f"{t['code']} rejected by the compiler: {t['rejected'][-160:]}")
                     continue
                 run.count("trees_swept")
                 run.count("sweep_clocks", t["steps"])
@@ -628,14 +672,22 @@ def main(run: Run):
                 if not t["findings"]:
                     run.count("trees_ok")
                     run.count("tree_registers_decoded", t["registers"])
-                    if tree_sampled < 3 and t["code"].count(".") >= 2:
-                        tree_sampled += 1
-                        lay = c20_trees.build(t["code"])
-                        run.sample({"tree": t["code"], "documented_addresses": {x["name"]: hex(x["addr"]) for x in lay["regs"]},
+                    is_obj = t["code"].startswith("obj/")
+                    run.count("objects_ok" if is_obj else "decode_trees_ok")
+                    if (is_obj and obj_sampled < 3 and t["code"].startswith(("obj/mem", "obj/out", "obj/reg"))) or \
+                            (not is_obj and tree_sampled < 3 and t["code"].count(".") >= 2):
+                        if is_obj:
+                            obj_sampled += 1
+                            lay = c20_objects.build(t["code"][4:])
+                        else:
+                            tree_sampled += 1
+                            lay = c20_trees.build(t["code"][5:])
+                        run.sample({"generated_layout": t["code"],
+                                    "documented_addresses": {x["name"]: hex(x["addr"]) for x in lay["regs"]},
                                     "unmapped_words": len(lay["unmapped"]), "sweep_clocks": t["steps"]}, force=True)
                 for f in t["findings"]:
-                    key = finding_key("tree/" + t["code"], f)
-                    run.violation(key, f"tree {t['code']}: [{f['rule']}] {f['text'][:500]} (after {f.get('depth')} clocks)",
+                    key = finding_key(t["code"], f)
+                    run.violation(key, f"{t['code']}: [{f['rule']}] {f['text'][:500]} (after {f.get('depth')} clocks)",
                                   {"cfg": f.get("cfg"), "events": f["trace"], "rule": f["rule"], "detail": f["detail"]})
             continue
         layouts_seen.add(r["layout"])
